@@ -90,6 +90,14 @@ func runC03(c *Ctx) {
 		limits.Frag, limits.Packets = F, P
 		devS := newDevID(r)
 		others := []device.ID{newDevID(r), newDevID(r)}
+		if r.Chance(50) {
+			// a client on the same host as the sender: same machine part of the ID, another session part
+			// (what Spawn / a second implant on the host produces); still a different device
+			others[0] = devS
+			for others[0] == devS {
+				copy(others[0][device.MachineIDSize:], r.Bytes(device.IDSize-device.MachineIDSize))
+			}
+		}
 		s, _ := c2.VerifC02NewSession(devS, r.Bool(), 256)
 		last := uint16(0)
 		if r.Chance(25) {
@@ -154,6 +162,9 @@ func runC03(c *Ctx) {
 					}
 				default:
 					n = []int{254, 255, 256, 257}[r.Intn(4)]
+					if F > 100000 && r.Chance(35) { // the 2-byte / 4-byte length class boundary of the nested form
+						n = []int{65534, 65535, 65536, 65537}[r.Intn(4)]
+					}
 				}
 				if n+com.PacketHeaderSize+8 > F {
 					n = F - com.PacketHeaderSize - 8 - r.Intn(20)
@@ -188,6 +199,17 @@ func runC03(c *Ctx) {
 			vs, err := goUnpack(w, 0)
 			if err != nil && unpackErr == "" {
 				unpackErr = err.Error()
+			}
+			// the receiver dispatches on the MultiDevice flag (conn.process): without it the batch goes
+			// through processSingle -> receive, which rejects an element that names another device and
+			// drops it and everything behind it
+			if w.Flags&com.FlagMultiDevice == 0 {
+				for _, v := range vs {
+					if v.Device != devS && !v.Device.Empty() {
+						c.Fail("batch", "batch:foreign-device-without-multidevice", fmt.Sprintf("transmission %d carries a packet of device %s (sender %s) but not the MultiDevice flag: the receiver rejects it and loses the rest of the batch", it, hx(v.Device[:]), hx(devS[:])), toks)
+						break
+					}
+				}
 			}
 			observed = append(observed, vs...)
 		}
